@@ -108,6 +108,9 @@ fn main() {
             if ["C01", "C05", "C08", "C09", "C10", "C13", "C14", "C15", "C16"].contains(&prop) {
                 ws::RAW_NAMES.store(true, std::sync::atomic::Ordering::Relaxed);
             }
+            if ["C10", "C14"].contains(&prop) {
+                rqv::wsgen::TIGHT_SPLIT.store(true, std::sync::atomic::Ordering::Relaxed);
+            }
             engine::start_inproc_watchdog();
             dispatch!(prop, do_shard, &env, &args[6]);
             ws::rm_rf(&env.scratch);
